@@ -40,7 +40,7 @@ EXPLANATION = (
     "legacy-ctx branches; to_serialized -> Context.from_dict = Serial.roundtrip; workflow.run(ctx=) = Runner.init (rehydrate, rewind, timeout "
     "re-armed, timer heap / tick buffer / mailbox NOT restored); _on_server_start's selection). Proved for all schedules, step results and "
     "external ticks (induction over action lists, any replay clock, policies that do not look at elapsed time): replaying the ticks persisted "
-    "so far never raises and rebuilds the live reducer state up to first-attempt timestamps, hence the very same serialised context "
+    "so far never raises and rebuilds the live reducer state up to first-attempt timestamps, hence the same serialised context up to those timestamps "
     "(C13_replay_reproduces_state); a log whose replay ends in an exit command is mapped to completed+result / failed+error / cancelled / "
     "timed-out->failed and no runner is started, and that status is the live outcome (C13_finalize, C13_finalize_matches_live); the resumed "
     "runner holds, per step, exactly the queued + in-progress invocations of the live state (a permutation; every in-progress one restarted or "
